@@ -736,6 +736,8 @@ pub fn decode_box<T: Fl>(w: &[u64], t: &mut Tally, variant: &'static str) -> Opt
     t.class(if g[0] > g[1] || g[2] > g[3] { "box:x or y planes descending (e.g. y-down screen space)" } else { "box:planes ascending" });
     t.class(if thin > 1e3 { "box:offset/extent>1e3" } else { "box:offset/extent<=1e3" });
     t.class(if g[4] < 0.0 { "near:<0" } else if g[4] == 0.0 { "near:0" } else { "near:>0" });
+    let de = g[5] - g[4];
+    t.class(if de <= 1e-6 { "depth-extent:<=1e-6" } else if de >= 1e6 { "depth-extent:>=1e6" } else { "depth-extent:1e-6..1e6" });
     let square = g[1] - g[0] == g[3] - g[2];
     if !square && off_axis {
         t.nontrivial(hash_case::<T>(variant, "box", &w[..BOX_WORDS]));
@@ -782,8 +784,13 @@ pub fn box_strategy<T: Fl>() -> BoxedStrategy<Vec<u64>> {
     let half = || (-8.0f64..10.0).prop_map(|e| 2f64.powf(e));
     let near = prop_oneof![4 => (-8.0f64..8.0).prop_map(|e| 2f64.powf(e)), 1 => Just(0.0f64), 2 => sgn_pow(-8.0, 8.0)];
     let cube = |l: f64| (-l..l, -l..l, -l..l);
-    (centre(), half(), centre(), half(), near, (-8.0f64..12.0), cube(1.0), cube(1.0), cube(4.0), cube(4.0), 0u8..16)
-        .prop_map(|(cx, hx, cy, hy, n, de, i0, i1, e0, e1, flip)| {
+    // a quarter of the boxes are scaled as a whole by 2^k, |k| <= 40: micrometre or astronomical scenes in metres
+    // ("all boxes with non-empty extent": nothing in the constructors depends on the absolute size)
+    let scale = prop_oneof![3 => Just(0i32), 1 => -40i32..41];
+    (centre(), half(), centre(), half(), near, (-8.0f64..12.0), cube(1.0), cube(1.0), cube(4.0), cube(4.0), 0u8..16, scale)
+        .prop_map(|(cx, hx, cy, hy, n, de, i0, i1, e0, e1, flip, sc)| {
+            let k = 2f64.powi(sc);
+            let (cx, hx, cy, hy, n, dd) = (cx * k, hx * k, cy * k, hy * k, n * k, 2f64.powf(de) * k);
             let span = |c: f64, h: f64| {
                 let lo = T::rnd(c - h);
                 let mut hi = T::rnd(c + h);
@@ -798,7 +805,7 @@ pub fn box_strategy<T: Fl>() -> BoxedStrategy<Vec<u64>> {
             let (l, r) = if flip & 3 == 0 { (r, l) } else { (l, r) };
             let (b, t) = if flip >> 2 == 0 { (t, b) } else { (b, t) };
             let n = T::rnd(n);
-            let mut f = T::rnd(n.f() + 2f64.powf(de));
+            let mut f = T::rnd(n.f() + dd);
             if !(f > n) {
                 f = n.up();
             }
